@@ -17,8 +17,15 @@ const NS: i128 = 1_000_000_000;
 fn exec_cell(check: &str, t: &SupplyTrace, baseline: &SupplyTrace, scratch: &Scratch, rec: &mut RunRecord, seed: u64, index: u64) {
     let before = rec.own.len();
     exec_supply(check, t, scratch, rec, seed, index);
+    // grids execute hundreds of cells per world: the recent cells are the ring's content; make sure the
+    // world's baseline is part of the history as well
     for v in rec.own.iter_mut().skip(before) {
-        v.trace = crate::checks::Trace::Seq(vec![crate::checks::Trace::Supply(baseline.clone()), v.trace.clone()]);
+        let mut seq = vec![crate::checks::Trace::Supply(baseline.clone())];
+        match &v.trace {
+            crate::checks::Trace::Seq(ts) => seq.extend(ts.iter().cloned()),
+            other => seq.push(other.clone()),
+        }
+        v.trace = crate::checks::Trace::Seq(seq);
     }
 }
 
@@ -63,7 +70,9 @@ pub fn run_c06(tier: Tier, seed: u64, index: u64, scratch: &Scratch, rec: &mut R
         rich_text: false,
         ..GenOpts::default()
     };
-    let (base, _plan) = gen::baseline(seed, &opts);
+    let (mut base, _plan) = gen::baseline(seed, &opts);
+    // configuration of the verifying host: its local time zone (POSIX TZ strings need no zoneinfo files)
+    base.tz = Some(r.pick(&["UTC0", "XYZ10", "ABC-14", "EST5EDT", "IST-5:30", "NPT-5:45", "HST10", "<+13>-13"]).to_string());
     let far = "9999-12-31T23:59:59Z";
     // the fault-free world (all expiries far in the future) must be accepted
     let mut b = base.clone();
@@ -121,7 +130,9 @@ pub fn run_c06(tier: Tier, seed: u64, index: u64, scratch: &Scratch, rec: &mut R
                 // extra cell: expiry in year 9999 regardless of delta
                 for (dname, d) in deltas.iter().chain([("y9999", i128::MAX)].iter()) {
                     for jump in [false, true] {
-                        if jump && !(dname.starts_with('-') || *dname == "0" || *dname == "+1ns") {
+                        // forward jumps matter on both sides of the boundary: an expired layout must stay
+                        // rejected, and an unexpired one must not crash or confuse a second clock read
+                        if jump && matches!(*dname, "-2000y" | "+2000y" | "-300y" | "+300y" | "-10y" | "+10y" | "y9999") {
                             continue;
                         }
                         // expiry instant E = (e_s, e_ns); clock = E - delta
@@ -150,7 +161,9 @@ pub fn run_c06(tier: Tier, seed: u64, index: u64, scratch: &Scratch, rec: &mut R
                         let text = refmodel::render_rfc3339(e_s, *off, frac);
                         let mut t = base.clone();
                         set_expiries(&mut t.root, pos, &text, far);
-                        t.clock = if jump { vec![clock, (clock.0 + 365 * 86_400, clock.1)] } else { vec![clock] };
+                        // the jump lands just behind the expiry when that lies ahead, a year later otherwise
+                        let landed = if e_s >= clock.0 { (e_s + 1 + (seed % 3) as i64, 0) } else { (clock.0 + 365 * 86_400, clock.1) };
+                        t.clock = if jump { vec![clock, landed] } else { vec![clock] };
                         t.labels = vec![format!("d={dname}"), format!("n={nname}"), format!("t={iname}"), format!("pos={pos}"), if jump { "JUMP".into() } else { "CONST".into() }];
                         let before = rec.evaluations;
                         exec_cell("C06", &t, &b, scratch, rec, seed, index);
@@ -239,7 +252,7 @@ pub fn run_c08(tier: Tier, seed: u64, index: u64, scratch: &Scratch, rec: &mut R
         (ExitSpec::Code(0), true),
     ];
     let n_insp = base.root.layout.inspect.len();
-    let fileops = if tier == Tier::Quick { 2 } else { 5 };
+    let fileops = if tier == Tier::Quick { 2 } else { 6 };
     // an extra "stage": the inspection of a delegated level fails while the delegating step has
     // surplus evidence (another functionary's plain link and a threshold that one link meets)
     {
@@ -283,7 +296,7 @@ pub fn run_c08(tier: Tier, seed: u64, index: u64, scratch: &Scratch, rec: &mut R
         }
         for (exit, noutf8) in outcomes {
             for fo in 0..fileops {
-                let fo = (fo + r.idx(5)) % 5;
+                let fo = (fo + r.idx(6)) % 6;
                 let mut t = staged.clone();
                 let which = r.idx(n_insp.max(1));
                 let ops = match fo {
@@ -291,10 +304,18 @@ pub fn run_c08(tier: Tier, seed: u64, index: u64, scratch: &Scratch, rec: &mut R
                     1 => vec![FsOp::Write { path: "sentinel".into(), content: "created by inspection".into() }],
                     2 => vec![FsOp::Append { path: "pre-existing".into(), content: "modified".into() }],
                     4 => vec![],
+                    5 => vec![FsOp::Write { path: "forbidden".into(), content: "x".into() }],
                     _ => vec![FsOp::Remove { path: "pre-existing".into() }, FsOp::Write { path: "forbidden".into(), content: "x".into() }],
                 };
                 if fo >= 2 {
                     t.work_files.push(("pre-existing".into(), "original".into()));
+                }
+                if fo == 5 {
+                    // several names for one file in the working directory
+                    t.work_files.push(("libfoo.so.1.0".into(), "ELF".into()));
+                    t.work_links.push(("libfoo.so".into(), "libfoo.so.1.0".into()));
+                    t.work_links.push(("libfoo.so.1".into(), "libfoo.so.1.0".into()));
+                    t.arrivals = vec![r.next()];
                 }
                 if fo == 4 {
                     // an inspection that changes nothing, whose rules reject what is there
